@@ -82,7 +82,13 @@ type c08Ref struct {
 func sequentialSpec(sp *RunSpec, perm []int) *RunSpec {
 	c := sp.Clone()
 	c.Sched = SchedSpec{Strategy: "fifo"}
-	c.Faults = nil
+	var keep []FaultSpec
+	for _, f := range c.Faults {
+		if f.Kind == "net_dup" {
+			keep = append(keep, f) // a duplicated message is part of the workload, not a failure
+		}
+	}
+	c.Faults = keep
 	reqs := make([]ReqSpec, len(perm))
 	for i, p := range perm {
 		reqs[i] = c.Requests[p]
@@ -423,6 +429,7 @@ func c08Porcupine(c *DriveCtx, res *Result) {
 // ---- workload ---------------------------------------------------------------
 
 type c08Gen struct {
+	dups []string
 	st   *Std
 	r    *Rng
 	reqs []ReqSpec
@@ -500,7 +507,8 @@ func (g *c08Gen) family(f int) {
 			var body J
 			switch r.Intn(3) {
 			case 0:
-				body = J{"@context": asCtx, "type": "Note", "content": fmt.Sprint("n", i), "to": st.Dave}
+				body = J{"@context": asCtx, "type": "Note", "content": fmt.Sprint("n", i), "to": []string{st.Dave, st.Bob.ID, st.Carol.ID}}
+				g.dups = append(g.dups, fmt.Sprintf("r%d|net|%s#1", g.n, Pick(r, []string{st.Bob.Inbox, st.Carol.Inbox})))
 			case 1:
 				body = J{"@context": asCtx, "type": "Like", "actor": st.Alice.ID, "object": fmt.Sprintf("%s/l%d", st.RNote, i), "to": st.Dave}
 			default:
@@ -548,6 +556,17 @@ func genC08(r *Rng, tier string, k int) *RunSpec {
 		g.reqs = g.reqs[:maxReq]
 	}
 	sp := mk("C08", st, g.reqs...)
+	for _, site := range g.dups {
+		ok := false
+		for _, rq := range g.reqs {
+			if strings.HasPrefix(site, rq.ID+"|") {
+				ok = true
+			}
+		}
+		if ok && r.Bool() {
+			sp.Faults = append(sp.Faults, FaultSpec{Site: site, Kind: "net_dup"}) // the network duplicates this delivery
+		}
+	}
 	sp.Gen = fmt.Sprintf("c08/%d", k)
 	sp.MapSeed = r.U64() | 1
 	return sp
@@ -607,8 +626,10 @@ func c08Oracle(c *DriveCtx, res *Result) {
 		return // deadlock is reported by Execute; budget is a harness matter
 	}
 	c08Duplicates(res)
-	if len(res.Spec.Faults) > 0 {
-		return // fault class: completion and duplicate handling only (a failed request may have done part of its effects)
+	for _, f := range res.Spec.Faults {
+		if f.Kind != "net_dup" {
+			return // fault class: completion and duplicate handling only (a failed request may have done part of its effects)
+		}
 	}
 	seq := true
 	for i, r := range res.Spec.Requests {
@@ -655,6 +676,32 @@ func driveC08(c *DriveCtx, r *Rng, k int) {
 		res := c.Exec(run)
 		if i == 0 {
 			sites = res.Sim.Sites
+		}
+	}
+	// crash class: the server dies at a random step (tasks unwind, locks vanish, the database survives), then the
+	// peers redeliver every inbox activity; duplicates must still be absorbed and nothing may hang
+	if len(sites) > 0 && k%4 == 1 {
+		nc := 4
+		if c.Tier == "thorough" {
+			nc = 12
+		}
+		for i := 0; i < nc && !c.Expired(); i++ {
+			cr := r.Fork(fmt.Sprintf("crash/%d", i))
+			run := sp.Clone()
+			n0 := len(run.Requests)
+			for j := 0; j < n0; j++ {
+				if run.Requests[j].Kind == "postInbox" {
+					rq := run.Requests[j]
+					rq.ID = fmt.Sprintf("x%d", j)
+					rq.AfterCrash = true
+					rq.After = nil
+					run.Requests = append(run.Requests, rq)
+				}
+			}
+			run.Faults = []FaultSpec{{Site: fmt.Sprintf("step|%d", 1+cr.Intn(len(sites)+5)), Kind: "crash", Arg: hostA}}
+			run.Sched = SchedSpec{Strategy: Pick(cr, []string{"random", "sticky", "fifo"}), Seed: cr.U64()}
+			run.Gen += fmt.Sprintf(" crash@%s sched=%s", run.Faults[0].Site, run.Sched.Strategy)
+			c.Exec(run)
 		}
 	}
 	// fault class: one seam call fails somewhere, under a random schedule; everything must still complete
